@@ -1,5 +1,5 @@
 SPECIFICATION TSpec
-CONSTANTS NG = 24
+CONSTANTS NG = 40
  NS = 800
  NH = 400
  MaxDepth = 1000000
